@@ -99,7 +99,10 @@ func ReactScenarios() []History {
 		Ev{Name: "ModCreate", Module: ModNameNone, Signer: "c1", Svc: "s1", Provs: both, Cap: 10, Timeout: 2, Thr: 1},
 		Ev{Name: "ModCreate", Module: ModNameRespOnly, Signer: "c2", Svc: "s1", Provs: both, Cap: 10, Timeout: 2, Rep: true, Freq: 2, Total: 3, Thr: 1},
 		eb(1),
-		Ev{Name: "BankSend", Signer: "c2", To: "o2", Amount: 99},
+		// (were such a context opened, its consumer would now run out of funds for the second batch)
+		Ev{Name: "Respond", Signer: "p1", Rid: rid(2, 1, 1, 0), Kind: "valid"},
+		Ev{Name: "BankSend", Signer: "c2", To: "o2", Amount: 92},
+		Ev{Name: "BankSend", Signer: "c2", To: "o2", Amount: 8},
 		eb(1), eb(1), eb(1), eb(1),
 	)
 	add("modules-without-their-callbacks", smallParams(), nil, ops...)
